@@ -21,7 +21,7 @@ EXPLANATION = "full product of portfolios x boundaries x scenario multisets; def
 MIN_NONTRIVIAL_FRACTION = 0.2
 MAX_S = {"quick": 900, "thorough": 7200}
 
-PORTFOLIOS = ["contracts", "storage", "transport", "multicommodity", "structured", "coarse", "feeder"]
+PORTFOLIOS = ["contracts", "storage", "transport", "multicommodity", "structured", "coarse", "feeder", "inactive", "periodic"]
 FUTURES = ["zig", "rev", "fall", "peak", "flat", "low", "high"]   # low / high: the base pattern scaled (scenarios that do not cross)
 
 
@@ -45,6 +45,13 @@ def assets(name):
     if name == "feeder":   # a node with exactly one single-variable supplier (+1) and an outgoing transport (-1)
         return [mkt, dict(type="SimpleContract", name="feed", nodes=["na"], price="q", min_cap=0.0, max_cap=3.0),
                 dict(type="Transport", name="ftr", nodes=["na", "n1"], min_cap=0.0, max_cap=4.0), sto]
+    if name == "inactive":   # assets whose life time lies before / after the horizon contribute nothing
+        return [mkt, sup, sto,
+                dict(type="Storage", name="old", nodes=["n1"], size=5.0, cap_in=1.0, cap_out=1.0, end="2020-12-31T00:00"),
+                dict(type="SimpleContract", name="late", nodes=["n1"], price="q", min_cap=-1.0, max_cap=1.0, start="2021-02-01T00:00"),
+                dict(type="Transport", name="oldtr", nodes=["n1", "n2"], min_cap=0.0, max_cap=1.0, end="2020-12-31T00:00")]
+    if name == "periodic":   # an asset repeating its dispatch every 12 hours
+        return [mkt, dict(type="SimpleContract", name="per", nodes=["n1"], price="q", min_cap=-2.0, max_cap=3.0, periodicity="12h"), sto]
     if name == "structured":
         inner = [dict(type="Storage", name="isto", nodes=["ni"], size=20.0, cap_in=1.0, cap_out=1.0, start_level=5.0, end_level=5.0),
                  dict(type="Transport", name="itr", nodes=["ni", "n1"], min_cap=-2.0, max_cap=2.0, efficiency=0.95)]
